@@ -31,7 +31,7 @@ from . import c11_translate
 PID = "C11"
 GEN_PATH = os.path.join(core.COQDIR, "theories", "C11", "Gen.v")
 
-PRE = ("From Coq Require Import PrimFloat ZArith List QArith.\nImport ListNotations.\n"
+PRE = ("From Coq Require Import String.\nFrom Coq Require Import PrimFloat ZArith List QArith.\nImport ListNotations.\n"
        "From EsVerif.Common Require Import Base.\n"
        "From EsVerif.C11 Require Import Gen Model ModelF Spec Exec.\nOpen Scope Z_scope.\n")
 PRE_CERT = ("From Coq Require Import Reals ZArith List.\nImport ListNotations.\n"
@@ -329,9 +329,59 @@ def gen_zpair(r, kind):
     return a, b
 
 
-def build(kw):
+CTOR_ORDER = ["H0", "h", "flat", "omega_m", "omega_l", "omega_k"]
+# numpy float32 scalars as constructor arguments make the unrepaired constructor compute DH / H0 / omega_l in float32
+# (fixes/C11/0001-*.patch); generated and replayed from the corpus only once that repair is in /repo HEAD
+CTOR_F4 = False
+
+
+def build(kw, form=None):
+    """form (constructor input forms, report section 10): {"types": {key: "np.f8" | "np.f4" | "np.i8" | "py-int"},
+    "explicit_none": [keys passed explicitly as None], "positional": bool}"""
     from esutil.cosmology import Cosmo
-    return Cosmo(**{k: v for k, v in kw.items() if v is not None})
+    form = form or {}
+    args = {k: v for k, v in kw.items() if v is not None}
+    for k, t in form.get("types", {}).items():
+        if k in args and k != "flat":
+            args[k] = mk_scalar(args[k], t)
+    for k in form.get("explicit_none", []):
+        if k not in args:
+            args[k] = None
+    if form.get("positional"):
+        # all six positionally; a parameter the case does not give is passed as its documented default
+        K = _STATE["K"]
+        dflt = {"H0": K["DEFAULT_H0"], "h": None, "flat": K["DEFAULT_FLAT"], "omega_m": K["DEFAULT_OMEGA_M"],
+                "omega_l": K["DEFAULT_OMEGA_L"], "omega_k": None}
+        return Cosmo(*[args.get(k, dflt[k]) for k in CTOR_ORDER])
+    return Cosmo(**args)
+
+
+def gen_form(r, kw):
+    """constructor input forms for the params entry; values stay the exact reals of kw"""
+    import numpy as np
+    form = {}
+    k = r.random()
+    if k < 0.35:
+        types = {}
+        for key, v in kw.items():
+            if key == "flat" or v is None:
+                continue
+            opts = ["np.f8"]
+            if float(v) == int(v):
+                opts += ["np.i8", "py-int"]
+            if CTOR_F4 and float(np.float32(v)) == float(v):
+                opts += ["np.f4"]
+            if r.random() < 0.6:
+                types[key] = r.choice(opts)
+        if types:
+            form["types"] = types
+    if r.random() < 0.25:
+        en = [key for key in ("h", "omega_k") if kw.get(key) is None and r.random() < 0.6]
+        if en:
+            form["explicit_none"] = en
+    if r.random() < 0.15:
+        form["positional"] = True
+    return form
 
 
 def rep_of(c):
@@ -374,7 +424,7 @@ def apply_op(c, op):
         return _copy.copy(c)
     if op == 2:
         return _copy.deepcopy(c)
-    return pickle.loads(pickle.dumps(c, protocol=pickle.HIGHEST_PROTOCOL if op == 3 else 2))
+    return pickle.loads(pickle.dumps(c, protocol={3: pickle.HIGHEST_PROTOCOL, 4: 2, 5: 0}.get(op, pickle.HIGHEST_PROTOCOL)))
 
 
 def probe(c):
@@ -400,16 +450,30 @@ class Params(Entry):
                     ({"omega_m": 0.2, "omega_l": 0.3, "flat": True}, [1, 3])]
             for kw, ops in hand:
                 cs.append({"kw": kw, "ops": ops, "family": "hand"})
-        for _ in range(ctx.n(60, 400)):
+            # keyword given explicitly as its documented default / explicit None / positional / numpy scalar types
+            for kw, ops, form in [({"H0": 100.0, "flat": True, "omega_m": 0.3, "omega_l": 0.7}, [3], {}),
+                                  ({"omega_m": 0.3}, [0, 3], {"explicit_none": ["h", "omega_k"]}),
+                                  ({"H0": 70.0, "omega_m": 0.25}, [3, 4], {"positional": True}),
+                                  ({"h": 0.5, "omega_m": 0.25, "omega_k": 0.25, "omega_l": 0.5}, [5, 2], {"positional": True}),
+                                  ({"H0": 70.0, "omega_m": 1.0}, [4], {"types": {"H0": "np.i8", "omega_m": "py-int"}}),
+                                  ({"H0": 67.4, "omega_m": 0.315, "omega_k": 0.0}, [5, 5],
+                                   {"types": {"H0": "np.f8", "omega_m": "np.f8", "omega_k": "np.f8"}})]:
+                cs.append({"kw": kw, "ops": ops, "form": form, "family": "hand-forms"})
+        for _ in range(ctx.n(70, 400)):
             kind = r.choice(["flat", "open", "closed", "free-ol", "concordance"])
             kw = gen_cosmo(ctx, kind, K)
-            ops = [r.randrange(0, 4) for _ in range(r.choice([0, 1, 1, 2, 3, 4]))]
-            cs.append({"kw": kw, "ops": ops, "family": kind})
+            if r.random() < 0.15:           # a default given explicitly
+                for key, dv in (("H0", K["DEFAULT_H0"]), ("flat", K["DEFAULT_FLAT"]), ("omega_l", K["DEFAULT_OMEGA_L"])):
+                    if key not in kw and not (key == "H0" and "h" in kw) and r.random() < 0.5:
+                        kw[key] = dv
+            # ops: 0 copy, 1 copy.copy, 2 deepcopy, 3 pickle (highest protocol), 4 pickle protocol 2, 5 pickle protocol 0
+            ops = [r.randrange(0, 6) for _ in range(r.choice([0, 1, 1, 2, 3, 4]))]
+            cs.append({"kw": kw, "ops": ops, "form": gen_form(r, kw), "family": kind})
         return cs
 
     def impl(self, c):
         def f():
-            o = build(c["kw"])
+            o = build(c["kw"], c.get("form"))
             d = o
             for op in c["ops"]:
                 d = apply_op(d, op)
@@ -514,18 +578,24 @@ class Chain(Entry):
 # ----------------------------------------------------------------------------------------------
 TWO = ["Dc", "Dm", "Da", "Dl", "sigmacritinv"]
 ONE = ["Ez_inverse", "dV", "distmod"]
-DTYPES = ["f8", "f4", "i8", "list", "strided", "list-int", "tuple"]
+# array forms handed to esutil (input-form audit, docs/reports/C11.md section 10).  Every form denotes the exact reals
+# in c["a"] / c["b"]: integer forms carry integers, float32 forms float32-representable values.
+DTYPES = ["f8", "f4", "i8", "i4", "u8", "u1", "f8-be", "f4-be", "i4-be", "list", "list-int", "tuple", "strided",
+          "reversed", "readonly", "col2d", "field", "0d"]
+INT_FORMS = ("i8", "i4", "u8", "u1", "i4-be", "list-int", "py-int", "np.i8", "np.i4")
+F4_FORMS = ("f4", "f4-be", "np.f4")
+NP_DTYPE = {"f8": "f8", "f4": "f4", "i8": "i8", "i4": "i4", "u8": "u8", "u1": "u1", "f8-be": ">f8", "f4-be": ">f4",
+            "i4-be": ">i4"}
+# scalar forms for the scalar positions of a call
+SCALARS = ["scalar", "scalar", "py-int", "np.f8", "np.f4", "np.i8", "np.i4"]
 
 
 def mk_array(vals, dt):
     """vals: python floats (already representable in dt); returns the object handed to esutil"""
     import numpy as np
-    if dt == "f8":
-        return np.array(vals, dtype="f8")
-    if dt == "f4":
-        return np.array(vals, dtype="f4")
-    if dt in ("i8",):
-        return np.array([int(v) for v in vals], dtype="i8")
+    n = len(vals)
+    if dt in NP_DTYPE:
+        return np.array([int(v) for v in vals] if dt in INT_FORMS else vals, dtype=NP_DTYPE[dt])
     if dt == "list":
         return [float(v) for v in vals]
     if dt == "list-int":
@@ -533,17 +603,49 @@ def mk_array(vals, dt):
     if dt == "tuple":
         return tuple(float(v) for v in vals)
     if dt == "strided":
-        big = np.full(2 * len(vals) + 1, 9.75)
+        big = np.full(2 * n + 1, 9.75)
         big[1::2] = vals
         return big[1::2]
+    if dt == "reversed":                       # negative stride
+        return np.array(vals[::-1], dtype="f8")[::-1]
+    if dt == "readonly":
+        arr = np.array(vals, dtype="f8")
+        arr.flags.writeable = False
+        return arr
+    if dt == "col2d":                          # column of a C-ordered 2-d array
+        m = np.full((n, 3), 9.75)
+        m[:, 1] = vals
+        return m[:, 1]
+    if dt == "field":                          # field of a structured array
+        rec = np.zeros(n, dtype=[("a", "f8"), ("z", "f8"), ("c", "i4")])
+        rec["a"] = 9.75
+        rec["z"] = vals
+        return rec["z"]
+    if dt == "0d":                             # not a scalar for numpy.isscalar: treated as a length-1 array
+        return np.array(vals[0], dtype="f8")
     raise ValueError(dt)
 
 
+def mk_scalar(v, dt):
+    import numpy as np
+    if dt == "py-int":
+        return int(v)
+    if dt == "np.f8":
+        return np.float64(v)
+    if dt == "np.f4":
+        return np.float32(v)
+    if dt == "np.i8":
+        return np.int64(int(v))
+    if dt == "np.i4":
+        return np.int32(int(v))
+    return float(v)
+
+
 def gen_vals(r, n, dt, lo=0.0, hi=5.0):
-    if dt in ("i8", "list-int"):
+    if dt in INT_FORMS:
         return [float(r.randrange(int(math.ceil(lo)), int(hi) + 1)) for _ in range(n)]
     vals = [r.choice([r.uniform(lo, hi), r.uniform(lo, min(hi, 1.0)), lo, hi]) for _ in range(n)]
-    if dt == "f4":
+    if dt in F4_FORMS:
         import numpy as np
         vals = [float(np.float32(v)) for v in vals]
         vals = [min(max(v, lo), hi) for v in vals]
@@ -551,18 +653,31 @@ def gen_vals(r, n, dt, lo=0.0, hi=5.0):
     return vals
 
 
-def scalar_of(v, dt):
-    """the element as a scalar of the array's element type"""
-    import numpy as np
-    if dt == "f4":
-        return np.float32(v)
-    if dt in ("i8",):
-        return np.int64(int(v))
-    if dt == "list-int":
-        return int(v)
-    if dt == "f8" or dt == "strided":
-        return np.float64(v)
-    return float(v)
+def expand(c, key):
+    """the element values of argument `key` ('a' / 'b'); long arrays are stored as palette + PRNG seed"""
+    lg = c.get("long")
+    if lg is None or key not in lg:
+        return c[key]
+    import random as _random
+    pal, n, seed = lg[key]["pal"], lg[key]["n"], lg[key]["seed"]
+    rr = _random.Random(seed)
+    return [pal[rr.randrange(len(pal))] for _ in range(n)]
+
+
+def c_zlist(bl):
+    """list of bit patterns -> Coq term : list Z; long lists are palette-encoded (Exec.pal / Exec.pal2)"""
+    if len(bl) <= 600:
+        return core.clist(bl)
+    pal = sorted(set(bl))
+    if len(pal) > 65536:
+        return core.clist(bl)
+    idx = {v: i for i, v in enumerate(pal)}
+    w, fn = (2, "pal") if len(pal) <= 256 else (4, "pal2")
+    P = core.clist(pal)
+    per = 4096
+    parts = ['%s %s "%s"%%string' % (fn, P, "".join("%0*x" % (w, idx[v]) for v in bl[i:i + per]))
+             for i in range(0, len(bl), per)]
+    return "(" + " ++ ".join(parts) + ")%list"
 
 
 def canon_out(res):
@@ -574,39 +689,81 @@ def canon_out(res):
     return ["sc", bits(res)]
 
 
+LONG_QUICK = [1023, 1025, 4096, 8193]
+LONG_THOROUGH = [1023, 1024, 1025, 4095, 4097, 8191, 8192, 8193, 16385, 65537, 100000]
+
+
 class Dispatch(Entry):
     name = "dispatch"
 
     def cases(self, ctx, round=0):
         K, r, cs = _STATE["K"], ctx.rng, []
         nmax = ctx.n(6, 40)
-        for i in range(ctx.n(150, 1000)):
+        for i in range(ctx.n(170, 1000)):
             kind = r.choice(["flat", "open", "closed", "concordance"])
             kw = gen_cosmo(ctx, kind, K)
             if r.random() < 0.72:
                 meth = r.choice(TWO)
                 shape = ["ss", "as", "sa", "aa", "aa", "aa-mismatch"][i % 6]
-                da, db = r.choice(DTYPES), r.choice(DTYPES)
-                n = r.choice([1, 2, 3, r.randrange(1, nmax + 1)])
+                da = r.choice(DTYPES) if shape[0] == "a" else r.choice(SCALARS)
+                db = r.choice(DTYPES) if shape[1] == "a" else r.choice(SCALARS)
+                n = r.choice([1, 2, 3, r.randrange(1, nmax + 1), r.randrange(0, nmax + 1)])
                 m = n
                 if shape == "aa-mismatch":
-                    m = r.choice([k for k in (1, 2, 3, n + 1, n + 2, max(1, n - 1)) if k != n])
-                a = gen_vals(r, n if shape[0] == "a" else 1, da if shape[0] == "a" else "f8")
-                b = gen_vals(r, m if shape[1] == "a" else 1, db if shape[1] == "a" else "f8")
-                cs.append({"kw": kw, "meth": meth, "shape": shape, "da": da if shape[0] == "a" else "scalar",
-                           "db": db if shape[1] == "a" else "scalar", "a": a, "b": b,
+                    m = r.choice([k for k in (0, 1, 2, 3, n + 1, n + 2, max(1, n - 1)) if k != n])
+                    da, db = (da if da != "0d" else "f8"), (db if db != "0d" else "f8")
+                if da == "0d":
+                    n = 1
+                    m = 1 if shape == "aa" else m
+                if db == "0d":
+                    m = 1
+                    n = 1 if shape == "aa" else n
+                a = gen_vals(r, n if shape[0] == "a" else 1, da)
+                b = gen_vals(r, m if shape[1] == "a" else 1, db)
+                cs.append({"kw": kw, "meth": meth, "shape": shape, "da": da, "db": db, "a": a, "b": b,
                            "family": "%s/%s" % (meth, shape)})
             else:
                 meth = r.choice(ONE)
                 shape = r.choice(["s", "a", "a"])
-                da = r.choice(DTYPES)
-                n = r.choice([1, 2, 3, r.randrange(1, nmax + 1)])
+                da = r.choice(DTYPES) if shape == "a" else r.choice(SCALARS)
+                n = 1 if da == "0d" else r.choice([1, 2, 3, r.randrange(1, nmax + 1), r.randrange(0, nmax + 1)])
                 lo = 0.01 if meth == "distmod" else 0.0
-                if meth == "distmod" and da in ("i8", "list-int"):
+                if meth == "distmod" and da in INT_FORMS:
                     lo = 1.0
-                a = gen_vals(r, n if shape == "a" else 1, da if shape == "a" else "f8", lo=lo)
-                cs.append({"kw": kw, "meth": meth, "shape": shape, "da": da if shape == "a" else "scalar", "a": a,
-                           "family": "%s/%s" % (meth, shape)})
+                a = gen_vals(r, n if shape == "a" else 1, da, lo=lo)
+                cs.append({"kw": kw, "meth": meth, "shape": shape, "da": da, "a": a, "family": "%s/%s" % (meth, shape)})
+        if round == 0:
+            # long arrays (beyond numpy's 8192-element cast buffer and any plausible block size): few distinct values
+            # (palette), so that the measured scalar table stays small
+            lens = LONG_QUICK if ctx.quick() else LONG_THOROUGH
+            for j, n in enumerate(lens):
+                kw = gen_cosmo(ctx, r.choice(["flat", "open", "closed"]), K)
+                da = ["f8", "f4", "i8", "strided", "list", "f8-be", "reversed", "i4"][j % 8]
+                db = ["f4", "f8", "readonly", "f8", "u1", "col2d", "list", "f8"][j % 8]
+                long = {}
+                if j % 4 == 3:
+                    meth, shape = r.choice(["Ez_inverse", "dV", "distmod"]), "a"
+                    lo = 1.0 if (meth == "distmod" and da in INT_FORMS) else (0.01 if meth == "distmod" else 0.0)
+                    long["a"] = {"pal": gen_vals(r, 6, da, lo=lo), "n": n, "seed": r.randrange(10 ** 9)}
+                    cs.append({"kw": kw, "meth": meth, "shape": shape, "da": da, "a": None, "long": long,
+                               "family": "%s/long" % meth})
+                    continue
+                meth = r.choice(TWO)
+                shape = ["aa", "as", "sa"][j % 4]
+                if shape[0] == "a":
+                    long["a"] = {"pal": gen_vals(r, 6, da), "n": n, "seed": r.randrange(10 ** 9)}
+                if shape[1] == "a":
+                    long["b"] = {"pal": gen_vals(r, 6, db), "n": n, "seed": r.randrange(10 ** 9)}
+                cs.append({"kw": kw, "meth": meth, "shape": shape, "da": da if shape[0] == "a" else "scalar",
+                           "db": db if shape[1] == "a" else "scalar",
+                           "a": None if shape[0] == "a" else gen_vals(r, 1, "f8"),
+                           "b": None if shape[1] == "a" else gen_vals(r, 1, "f8"), "long": long,
+                           "family": "%s/long" % meth})
+            # one long mismatch (n vs n - 1)
+            kw = gen_cosmo(ctx, "flat", K)
+            cs.append({"kw": kw, "meth": "Da", "shape": "aa-mismatch", "da": "f8", "db": "f8", "a": None, "b": None,
+                       "long": {"a": {"pal": gen_vals(r, 4, "f8"), "n": 8193, "seed": 1},
+                                "b": {"pal": gen_vals(r, 4, "f8"), "n": 8192, "seed": 2}}, "family": "Da/long"})
         return cs
 
     def impl(self, c):
@@ -615,54 +772,65 @@ class Dispatch(Entry):
         except Exception as e:  # noqa  the constructor or a SCALAR call raised inside the domain: a failing input
             return {"crash": core.errclass(e), "out": ["err", core.errclass(e)], "tab": []}
 
+    @staticmethod
+    def _is_arr(c, pos):
+        sh = c["shape"]
+        return sh[pos] == "a" if c["meth"] in TWO else sh == "a"
+
     def _impl(self, c):
         import numpy as np
         o = build(c["kw"])
         f = getattr(o, c["meth"])
-        sh = c["shape"]
         res = {}
+        av = expand(c, "a")
+        A = mk_array(av, c["da"]) if self._is_arr(c, 0) else mk_scalar(av[0], c["da"])
         if c["meth"] in TWO:
-            A = mk_array(c["a"], c["da"]) if sh[0] == "a" else float(c["a"][0])
-            B = mk_array(c["b"], c["db"]) if sh[1] == "a" else float(c["b"][0])
+            bv = expand(c, "b")
+            B = mk_array(bv, c["db"]) if self._is_arr(c, 1) else mk_scalar(bv[0], c["db"])
             r = core.guarded(lambda: canon_out(f(A, B)))
             res["out"] = list(r[:2])
-            # the scalar entry point on every element pair that an element-wise call would use
-            tab = []
-            n = max(len(c["a"]), len(c["b"]))
+            # the reference: the scalar entry point, called with python floats, on every DISTINCT element pair that an
+            # element-wise call would use
+            tab, seen = [], set()
+            xa, xb = self._is_arr(c, 0), self._is_arr(c, 1)
+            n = max(len(av) if xa else 1, len(bv) if xb else 1)
             for i in range(n):
-                x = c["a"][i if sh[0] == "a" else 0] if (i < len(c["a"]) or sh[0] != "a") else None
-                y = c["b"][i if sh[1] == "a" else 0] if (i < len(c["b"]) or sh[1] != "a") else None
-                if x is None or y is None:
+                if (xa and i >= len(av)) or (xb and i >= len(bv)):
                     continue
-                sx = scalar_of(x, c["da"]) if sh[0] == "a" else float(x)
-                sy = scalar_of(y, c["db"]) if sh[1] == "a" else float(y)
-                tab.append([bits(float(x)), bits(float(y)), bits(f(sx, sy))])
+                x, y = float(av[i if xa else 0]), float(bv[i if xb else 0])
+                key = (bits(x), bits(y))
+                if key in seen:
+                    continue
+                seen.add(key)
+                tab.append([key[0], key[1], bits(f(x, y))])
             res["tab"] = tab
         else:
-            A = mk_array(c["a"], c["da"]) if sh == "a" else float(c["a"][0])
             r = core.guarded(lambda: canon_out(f(A)))
             res["out"] = list(r[:2])
-            tab, dl, post = [], [], []
-            for x in c["a"]:
-                sx = scalar_of(x, c["da"]) if sh == "a" else float(x)
-                tab.append([bits(float(x)), bits(float(f(sx)))])
+            tab, dl, post, seen = [], [], [], set()
+            for x in av:
+                x = float(x)
+                if bits(x) in seen:
+                    continue
+                seen.add(bits(x))
+                tab.append([bits(x), bits(float(f(x)))])
                 if c["meth"] == "distmod":
-                    d = o.Dl(0.0, sx)
-                    dl.append([0, bits(float(x)), bits(d)])
+                    d = o.Dl(0.0, x)
+                    dl.append([0, bits(x), bits(d)])
                     post.append([bits(d), bits(float(5.0 * np.log10(d * 1.0e6 / 10.0)))])
             res["tab"], res["dl"], res["post"] = tab, dl, post
         return res
 
     @staticmethod
     def _arg(vals, is_arr):
-        return "(Ar %s)" % core.clist([bits(v) for v in vals]) if is_arr else "(Sc %s)" % cz(bits(vals[0]))
+        return "(Ar %s)" % c_zlist([bits(v) for v in vals]) if is_arr else "(Sc %s)" % cz(bits(vals[0]))
 
     @staticmethod
     def _out(o):
         if o[0] != "ok":
             return "(Err %s)" % o[1]
         k, v = o[1]
-        return "(Ok (Ar %s))" % core.clist(v) if k == "ar" else "(Ok (Sc %s))" % cz(v)
+        return "(Ok (Ar %s))" % c_zlist(v) if k == "ar" else "(Ok (Sc %s))" % cz(v)
 
     def term(self, c, out):
         if "crash" in out:
@@ -680,17 +848,18 @@ class Dispatch(Entry):
         return t
 
     def _term(self, c, out):
-        sh = c["shape"]
+        av = expand(c, "a")
         if c["meth"] in TWO:
+            bv = expand(c, "b")
             tab = "[" + "; ".join("(%s, %s, %s)" % (cz(a), cz(b), cz(v)) for a, b, v in out["tab"]) + "]"
-            return "v_dispatch2 %s %s %s %s" % (tab, self._arg(c["a"], sh[0] == "a"), self._arg(c["b"], sh[1] == "a"),
+            return "v_dispatch2 %s %s %s %s" % (tab, self._arg(av, self._is_arr(c, 0)), self._arg(bv, self._is_arr(c, 1)),
                                                 self._out(out["out"]))
         tab = "[" + "; ".join("(%s, %s)" % (cz(a), cz(v)) for a, v in out["tab"]) + "]"
         if c["meth"] == "distmod":
             dl = "[" + "; ".join("(%s, %s, %s)" % (cz(a), cz(b), cz(v)) for a, b, v in out["dl"]) + "]"
             post = "[" + "; ".join("(%s, %s)" % (cz(a), cz(v)) for a, v in out["post"]) + "]"
-            return "v_distmod %s %s %s %s %s" % (dl, post, tab, self._arg(c["a"], sh == "a"), self._out(out["out"]))
-        return "v_dispatch1 %s %s %s" % (tab, self._arg(c["a"], sh == "a"), self._out(out["out"]))
+            return "v_distmod %s %s %s %s %s" % (dl, post, tab, self._arg(av, self._is_arr(c, 0)), self._out(out["out"]))
+        return "v_dispatch1 %s %s %s" % (tab, self._arg(av, self._is_arr(c, 0)), self._out(out["out"]))
 
     def nontrivial(self, c, out):
         return "a" in c["shape"]
